@@ -142,7 +142,7 @@ def rule_r4(chk, db):
         if b is None:
             chk.anchor_missing("R4", "%s not found" % name)
             continue
-        n += streamerr.check(chk, "R4", db, b, what)
+        n += streamerr.check(chk, "R4", db, b, what, end_only_at_eof=(short(b.name) == "aggregate_unlimited"))
     chk.floor("R4", n, 2, "source-stream reads on the POST path")
     prep = find_prepare(db)
     ag = [(bi, t) for bi, t in prep.calls() if short(callee_def(t)) == "aggregate_unlimited"]
